@@ -69,7 +69,7 @@ def _build():
             'd:2020-01-01', 'h:12:00', 't:2020-01-01T00:00:00Z UTC', 'c:1,2', '[1]', '{"a":1}', '"x"', '[', '{', '"', '\\', '\\"', '""', '\\\\',
             '$', '$$', '`', ',', ',,', ':', '\n', '\r\n', '\r', '\t', '\n\n', 'a\n\nb', '>>', '<<', '>>\n', ' a', 'a ', '\x00', '\x01', '\x1f', '\x7f', '\x08\x0c',
             u'é', u'\u0080', u' ', u' ', u'﻿', u'￿', u'\U0001f600', u'\ud800', '\\n', '\\u0041', '\\$', 'a"b,c', 'x\\', u'\\\u00e9', '\\\x01', 'C:\\data\\ubad0', '\\\\u0041', u'\U0001f600\\']
-    reps = {'a', 'N', 'n:1', '"', '\\', '\n', ',', u'é', '\x01', '$', 'a b'}
+    reps = {'a', 'N', 'n:1', '"', '\\', '\n', ',', u'é', '\x01', '$', 'a b', u'\U0001f600', ''}
     for s in strs:
         add(E('str:%r' % s, ('str', s), rep=s in reps))
     # uris
@@ -94,7 +94,7 @@ def _build():
     # dates / times
     for (y, m, d) in [(1, 1, 1), (1970, 1, 1), (2020, 2, 29), (9999, 12, 31), (1900, 1, 1)]:
         add(E('date:%04d-%02d-%02d' % (y, m, d), ('date', y, m, d), rep=(y == 2020)))
-    for (h, m, s, us) in [(0, 0, 0, 0), (23, 59, 59, 999999), (12, 34, 56, 100000), (0, 0, 0, 1), (1, 2, 0, 0), (12, 34, 56, 0), (12, 34, 56, 123000)]:
+    for (h, m, s, us) in [(0, 0, 0, 0), (23, 59, 59, 999999), (12, 34, 56, 100000), (0, 0, 0, 1), (1, 2, 0, 0), (12, 34, 56, 0), (12, 34, 56, 123000), (7, 51, 43, 249), (7, 51, 43, 15700), (7, 51, 43, 129649)]:
         add(E('time:%02d:%02d:%02d.%06d' % (h, m, s, us), ('time', h, m, s, us), rep=(us in (100000, 0) and h == 12)))
     # date-times
     dts = [
@@ -108,13 +108,27 @@ def _build():
         ('Kathmandu', (2020, 6, 1, 12, 0, 0)), ('Kathmandu', (1980, 6, 1, 12, 0, 0)),
         ('Lord_Howe', (2020, 4, 4, 15, 0, 0)), ('Lord_Howe', (2020, 4, 4, 15, 30, 0)), ('Lord_Howe', (2020, 10, 3, 15, 30, 0)),
         ('GMT+5', (2020, 6, 1, 12, 0, 0)), ('Paris', (2020, 6, 1, 12, 0, 0)), ('Sydney', (2020, 1, 1, 0, 0, 0)), ('Kolkata', (2020, 1, 1, 0, 0, 0)),
+        # negative offsets that are not whole hours, sub-hour DST steps, local-mean-time era (offset with odd minutes)
+        ('St_Johns', (2020, 6, 1, 12, 0, 0)), ('St_Johns', (2020, 1, 1, 12, 0, 0)), ('Marquesas', (2020, 6, 1, 12, 0, 0)),
+        ('Caracas', (2010, 6, 1, 12, 0, 0)), ('Adelaide', (2020, 1, 1, 12, 0, 0)), ('New_York', (1880, 6, 1, 12, 0, 0)),
+        ('Chatham', (2020, 1, 1, 12, 0, 0)), ('Los_Angeles', (2020, 7, 15, 12, 0, 0)),
     ]
     for i, (z, t) in enumerate(dts):
-        for us in ((0, 1, 123456) if i in (3, 5, 9) else (0,)):
+        for us in ((0, 1, 123456, 249, 129649) if i in (3, 5, 9) else (0,)):
             add(E('dt:%s %04d-%02d-%02dT%02d:%02d:%02d.%06dZ' % ((z,) + t + (us,)), _dt(z, *(t + (us,))),
                   rep=(i in (0, 3, 5) and us == 0) or (i == 3 and us == 123456)))
     for off in (0, 60, -300, 345, 570, -210):
         add(E('dt:fixed%+d' % off, _fx(off, 2020, 6, 1, 12, 0, 0), rep=(off == 60)))
+    # one offset in both DST seasons (the zone found for the offset depends on the instant), and wall-clock times that fall
+    # into the spring-forward gap of zones that have this offset in winter
+    for off in (-480, -420, 570, 630):
+        add(E('dt:fixed%+d jan' % off, _fx(off, 2020, 1, 15, 12 - off // 60, 0, 0), rep=(off == -480)))
+        add(E('dt:fixed%+d jul' % off, _fx(off, 2020, 7, 15, 12 - off // 60, 0, 0), rep=(off == -480)))
+    for off, (mo, d) in ((-600, (3, 8)), (-540, (3, 8)), (-480, (3, 8)), (570, (10, 4))):
+        loc = (2020, mo, d, 2, 30, 0)
+        import datetime as _d
+        utc = _d.datetime(*loc) - _d.timedelta(minutes=off)
+        add(E('dt:fixed%+d gap' % off, _fx(off, utc.year, utc.month, utc.day, utc.hour, utc.minute, 0)))
     add(E('dt:fixed+60 us', _fx(60, 2020, 1, 1, 12, 0, 0, 1)))
     # coordinates
     for (la, lo) in [(0.0, 0.0), (-90.0, 180.0), (37.545826, -77.449188), (1.1234564, 1.1234566), (1e-7, -1e-7), (89.9999999, 0.0), (-0.5, 0.25), (90.0, -180.0)]:
